@@ -49,12 +49,12 @@ Open Scope string_scope.
    `move`, `ucinewgame`, `cleartt` -- that is `go` with any arguments and any poll/stop schedule, `perft N`, `perft! N`, `eval`, `d`, `isready`,
    `uci`, `stop`, unknown lines, the bench commands -- leaves the current position and the recorded game history exactly as they were
    (only the transposition table may change) *)
-Theorem C17_inspecting_commands_keep_position_and_history : forall extra u line input,
+Theorem C17_inspecting_commands_keep_position_and_history : forall extra dl u line input,
   let cmd := lower_str (first_token (trim line)) in
   cmd <> "position" -> cmd <> "ucinewgame" -> cmd <> "cleartt" -> cmd <> "move" ->
-  let '(u', _, _, _, _) := uci_step extra u line input in u_game u' = u_game u /\ u_rep u' = u_rep u.
+  let '(u', _, _, _, _) := uci_step extra dl u line input in u_game u' = u_game u /\ u_rep u' = u_rep u.
 Proof.
-  intros extra u line input cmd N1 N2 N3 N4. unfold uci_step. cbn zeta. fold cmd.
+  intros extra dl u line input cmd N1 N2 N3 N4. unfold uci_step. cbn zeta. fold cmd.
   destruct (String.eqb (trim line) ""); [split; reflexivity|].
   destruct (String.eqb cmd "quit" || String.eqb cmd "exit" || String.eqb cmd "x")%bool; [split; reflexivity|].
   destruct (String.eqb cmd "uci"); [split; reflexivity|].
@@ -65,9 +65,8 @@ Proof.
   destruct (String.eqb_spec cmd "position") as [E|_]; [contradiction|].
   destruct (String.eqb cmd "go").
   - destruct (go_tokens _ _ _ _ _); try (split; reflexivity).
-    destruct (negb _); [split; reflexivity|].
-    destruct (session_search _ _ _ _ _); [|split; reflexivity].
-    destruct (if (_ =? 0)%Z then _ else _) as [[nready stopper] rest]. split; reflexivity.
+    destruct (session_search _ _ _ _ _ _); [|split; reflexivity].
+    destruct (poll_schedule _ _ _ _) as [[nready stopper] rest]. split; reflexivity.
   - destruct (String.eqb cmd "stop"); [split; reflexivity|].
     destruct (String.eqb_spec cmd "move") as [E|_]; [contradiction|].
     destruct (String.eqb cmd "perft").
@@ -82,16 +81,16 @@ Qed.
 
 (* ... and what `move` does instead: it plays the listed moves on from the current position -- the earlier history stays a prefix of the new one,
    one key is appended per move, the table is untouched; a token that is not a legal move of the position reached ends the process (panic) *)
-Theorem C17_move_command_plays_on : forall extra u line input,
+Theorem C17_move_command_plays_on : forall extra dl u line input,
   trim line <> "" -> lower_str (first_token (trim line)) = "move" ->
-  let '(u', outs, rq, input', st) := uci_step extra u line input in
+  let '(u', outs, rq, input', st) := uci_step extra dl u line input in
   match play_moves (u_game u) (u_rep u) (rest_tokens (trim line)) with
   | FOk (g, rep) => u' = mkU g (u_tt u) rep /\ st = Continue /\ outs = [] /\
                     exists ps, positions_after (u_game u) (rest_tokens (trim line)) = Some ps /\ rep = (u_rep u ++ map hash ps)%list /\ g = last ps (u_game u)
   | _ => u' = u /\ st = UPanic
   end.
 Proof.
-  intros extra u line input NE CM. unfold uci_step. cbn zeta.
+  intros extra dl u line input NE CM. unfold uci_step. cbn zeta.
   destruct (String.eqb_spec (trim line) "") as [E|_]; [contradiction|]. rewrite CM. cbn [String.eqb Ascii.eqb Bool.eqb orb].
   destruct (play_moves (u_game u) (u_rep u) (rest_tokens (trim line))) as [[g rep]| |] eqn:P; try (split; reflexivity).
   repeat split. apply FenProofs.play_moves_history in P. destruct P as (ps & P1 & P2 & P3). exists ps. auto.
